@@ -30,7 +30,9 @@ LEVEL_TEXT = ('Lean 4 theorems about the model of propagate_fft, for all fields,
               'caller\'s scratch buffer is untouched outside the fft_shape corner after the call. '
               'The call on a wavefront of any plane type (propagateFftCall = regenerated entry-guard table Gen.codePropagateFft, then propagateFft): a tilted wavefront is refused '
               'whatever its plane type, also an untyped one (call_refuses_tilted_any_type), no outcome of the call carries a field of a tilted wavefront (call_result_implies_untilted), '
-              'an untilted untyped wavefront is refused with TypeError and on a pupil / image wavefront the call IS propagateFft with the plane type flipped (call_untilted).')
+              'an untilted untyped wavefront is refused with TypeError and on a pupil / image wavefront the call IS propagateFft with the plane type flipped (call_untilted). '
+              'The arithmetic of _fft_shape is regenerated too: Gen.fftShapeOfAlpha (the composition np.round(np.reciprocal(alpha)).astype(int) over abstract round/floor/ceil/reciprocal) and '
+              'Gen.fftWavelengthReduce (np.min); fft_shape_is_generated proves the model\'s fftShape, scratchShape and propWavelength are these with round-half-even, 1/x and min.')
 LEVEL_NOTE = ('Partial: np.fft.fft2/fftshift/ifftshift and np.round/np.min/np.max enter through their documented contracts (not verified; which of them _fft2 composes and in which order IS regenerated; the real-number round-half-even and min are the instances the theorems are proved at); oversample is an integer in the model and theorems — float '
               'oversample is exercised by the oracle only (known finding KF-C09-float-oversample-explicit-shape); anisotropic dx·du whose per-axis wavelengths DIFFER is excluded by '
               'hypothesis (KF-C09-fft-anisotropic-wavelength; consistent per-axis grids are covered). Trusted: Lean kernel, py2lean subset semantics, generator coverage.')
